@@ -892,7 +892,7 @@ func (g *Gen) members(allowAbstract, iface bool) []ast.Vertex {
 			}
 			kk := g.rng(1, 2, "nconsts")
 			for j := 0; j < kk; j++ {
-				c.Consts = append(c.Consts, &ast.StmtConstant{Name: g.Ident(g.plainName()), EqualTkn: g.ch('='), Expr: g.ConstExpr()})
+				c.Consts = append(c.Consts, &ast.StmtConstant{Name: g.declMemberName(), EqualTkn: g.ch('='), Expr: g.ConstExpr()})
 				if j < kk-1 {
 					c.SeparatorTkns = append(c.SeparatorTkns, g.ch(','))
 				}
@@ -934,9 +934,7 @@ func (g *Gen) method(allowAbstract, iface bool) ast.Vertex {
 		m.AmpersandTkn = g.ch('&')
 	}
 	if g.O.PHP7 && !g.O.Common && g.chance(1, 6, "kwmethod") {
-		k := semiReserved[g.intn(len(semiReserved), "kw")]
-		m.Name = g.identTok(g.kw(k.id, k.s))
-		g.feat("semi-reserved-member")
+		m.Name = g.kwIdent(true)
 	} else {
 		m.Name = g.Ident(g.pick("methodname", "__construct", "run", "getX", "__get", "Foo", "handle"))
 	}
@@ -952,6 +950,15 @@ func (g *Gen) method(allowAbstract, iface bool) ast.Vertex {
 	return m
 }
 
+// declMemberName draws a class-constant / method-reference name: a plain identifier or, under PHP 7,
+// any semi-reserved word.
+func (g *Gen) declMemberName() *ast.Identifier {
+	if g.O.PHP7 && !g.O.Common && g.chance(1, 6, "kwmember") {
+		return g.kwIdent(true)
+	}
+	return g.Ident(g.plainName())
+}
+
 func (g *Gen) traitUse() ast.Vertex {
 	n := &ast.StmtTraitUse{UseTkn: g.kw(token.T_USE, "use")}
 	n.Traits, n.SeparatorTkns = g.nameList(1, 3)
@@ -961,12 +968,12 @@ func (g *Gen) traitUse() ast.Vertex {
 		k := g.rng(0, 3, "nadapt")
 		for i := 0; i < k; i++ {
 			if g.chance(1, 3, "precedence") {
-				p := &ast.StmtTraitUsePrecedence{Trait: g.Name(), DoubleColonTkn: g.tok(token.T_PAAMAYIM_NEKUDOTAYIM, "::"), Method: g.Ident(g.plainName()), InsteadofTkn: g.kw(token.T_INSTEADOF, "insteadof"), SemiColonTkn: g.ch(';')}
+				p := &ast.StmtTraitUsePrecedence{Trait: g.Name(), DoubleColonTkn: g.tok(token.T_PAAMAYIM_NEKUDOTAYIM, "::"), Method: g.declMemberName(), InsteadofTkn: g.kw(token.T_INSTEADOF, "insteadof"), SemiColonTkn: g.ch(';')}
 				p.Insteadof, p.SeparatorTkns = g.nameList(1, 2)
 				n.Adaptations = append(n.Adaptations, p)
 				continue
 			}
-			a := &ast.StmtTraitUseAlias{Method: g.Ident(g.plainName()), AsTkn: g.kw(token.T_AS, "as"), SemiColonTkn: g.ch(';')}
+			a := &ast.StmtTraitUseAlias{Method: g.declMemberName(), AsTkn: g.kw(token.T_AS, "as"), SemiColonTkn: g.ch(';')}
 			if g.flip("qualified") {
 				a.Trait, a.DoubleColonTkn = g.Name(), g.tok(token.T_PAAMAYIM_NEKUDOTAYIM, "::")
 			}
@@ -974,9 +981,14 @@ func (g *Gen) traitUse() ast.Vertex {
 			case 0:
 				a.Modifier = g.visibility()
 			case 1:
-				a.Modifier, a.Alias = g.visibility(), g.Ident(g.plainName())
+				a.Modifier, a.Alias = g.visibility(), g.declMemberName()
 			default:
-				a.Alias = g.Ident(g.plainName())
+				// "as" directly followed by a word: only reserved_non_modifiers (a modifier word would be the modifier)
+				if g.O.PHP7 && !g.O.Common && g.chance(1, 6, "kwalias") {
+					a.Alias = g.kwIdent(false)
+				} else {
+					a.Alias = g.Ident(g.plainName())
+				}
 			}
 			n.Adaptations = append(n.Adaptations, a)
 		}
